@@ -94,6 +94,10 @@ class Ctx:
 
     def bad(self, key, where, msg, sample=None):
         """one analysed instance that violates the rule"""
+        if "Unknown(" in str(msg):
+            # the import-time value the rule compares was not computed by the abstract interpreter (a table built in a way it does
+            # not follow): nothing was decided about it
+            return self.undecided(key, where, "%s -- the value could not be computed from the source" % msg)
         self.cur.instances += 1
         self.cur.nontrivial.add("!" + str(key))
         self.cur.findings.append(Finding(self.cur.id, key, where, msg))
